@@ -802,6 +802,8 @@ Inductive op :=
 | OGMove (gn go : N)
 | OGAssign (gd gs : N)
 | OGMoveAssign (gd gs : N)
+| OGShare (g : N)          (* the signal object g becomes co-owned (std::shared_ptr) by the program and by functor copies *)
+| OGRelease (g : N)        (* the program drops its own shared_ptr to signal object g *)
 | OGDel (g : N)
 | OGConnect (g s : N) (c : option N) (front mv : bool)
 | OGEmit (g arg : N) (catch : bool)
@@ -1124,6 +1126,8 @@ Section Interp.
      such functor copy has been destroyed.  In the C++ the destruction happens inside the library
      call that destroys the last functor copy; no user code can run between that moment and the end
      of the operation in progress, so the model performs it at the end of the operation. *)
+  (* signal objects held through shared ownership use the keys 2000 + g in the same table *)
+  Definition sig_key (g : N) : N := 2000 + g.
   Definition owns (b : N) : list N := match aget b (p_owns prog) with Some l => l | None => [] end.
 
   Definition owner_count (t : N) (st : state) : N :=
@@ -1137,25 +1141,18 @@ Section Interp.
   Definition prog_track (t : N) (st : state) : option trackable :=
     if is_released t st then None else live_track t st.
 
+  Definition key_live (k : N) (st : state) : bool :=
+    if N.leb 2000 k
+    then match live_sig (k - 2000) st with Some _ => true | None => false end
+    else match live_track k st with Some _ => true | None => false end.
+
   Fixpoint find_orphan (l : list (N * bool)) (st : state) : option N :=
     match l with
     | [] => None
     | (t, rel) :: r =>
-        if rel && match live_track t st with Some _ => true | None => false end && N.eqb (owner_count t st) 0
+        if rel && key_live t st && N.eqb (owner_count t st) 0
         then Some t else find_orphan r st
     end.
-
-  Fixpoint gc (fuel : nat) (st : state) : res state :=
-    match find_orphan (shared st) st with
-    | None => Ok st
-    | Some t =>
-        match fuel with
-        | O => Err ErrLoop
-        | S f => st1 <- track_notify t st ;; gc f (with_tracks (aset t None (tracks st1)) st1)
-        end
-    end.
-
-  Definition gc_shared (st : state) : res state := gc (S (List.length (shared st))) st.
 
   (* ---- the operations ---- *)
 
@@ -1233,6 +1230,26 @@ Section Interp.
     | None => Ok st2
     end.
 
+  (* end-of-operation destruction of what nobody owns any more: a trackable, or a signal object
+     (its destruction is that of OGDel: trackable base first, then the handle) *)
+  Fixpoint gc (fuel : nat) (st : state) : res state :=
+    match find_orphan (shared st) st with
+    | None => Ok st
+    | Some t =>
+        match fuel with
+        | O => Err ErrLoop
+        | S f =>
+            if N.leb 2000 t
+            then match live_sig (t - 2000) st with
+                 | Some go => st1 <- sig_destroy (t - 2000) go st ;; gc f st1
+                 | None => Err ErrLoop
+                 end
+            else st1 <- track_notify t st ;; gc f (with_tracks (aset t None (tracks st1)) st1)
+        end
+    end.
+
+  Definition gc_shared (st : state) : res state := gc (S (List.length (shared st))) st.
+
   Definition same_gkind (a b : gkind) : bool :=
     rkind_eqb (gk_ret a) (gk_ret b) && Bool.eqb (gk_track a) (gk_track b) &&
     match gk_acc a, gk_acc b with
@@ -1284,7 +1301,7 @@ Section Interp.
     | OSNew s rk body refs =>
         if fresh_slot s st
            && forallb (fun t => match live_track t st with Some _ => negb (is_released t st) | None => false end) refs
-           && forallb (fun t => negb (fresh_track t st)) (owns body)
+           && forallb (fun t => N.leb 2000 t || negb (fresh_track t st)) (owns body)     (* an owned trackable must have been created; an owned signal object (key >= 2000) need not exist yet *)
         then
           let rid := next_rid st in
           let st1 := with_next_rid (rid + 1) st in
@@ -1438,9 +1455,21 @@ Section Interp.
             else skip st
         | _, _ => skip st
         end
+    | OGShare g =>
+        match live_sig g st with
+        | Some _ => if negb (is_shared (sig_key g) st) && N.ltb g 1000
+                    then Done (with_shared (aset (sig_key g) false (shared st)) st) tt else skip st
+        | None => skip st
+        end
+    | OGRelease g =>
+        match live_sig g st with
+        | Some _ => if is_shared (sig_key g) st && negb (is_released (sig_key g) st)
+                    then Done (with_shared (aset (sig_key g) true (shared st)) st) tt else skip st
+        | None => skip st
+        end
     | OGDel g =>
         match live_sig g st with
-        | Some go => liftu (sig_destroy g go st)
+        | Some go => if negb (is_shared (sig_key g) st) then liftu (sig_destroy g go st) else skip st
         | None => skip st
         end
     | OGConnect g s c front mv =>
